@@ -172,6 +172,11 @@ def run_native_one(ob, c, cfg, model):
         fn = resolve(c.target)
         real = native_outcome(lambda: fn(**args1))
         res = {"real": describe(real), "inputs": {k: show(v) for k, v in args1.items()}}
+        if ob.get("kind") == "frame":
+            S0 = NativeSym(model)
+            args0 = c.inputs(S0, cfg)
+            res["reproduced"] = any(not same(args1[a], args0[a]) for a in (c.frame or []))
+            return res
         if ob.get("kind") == "raises":
             if real[0] == "raise":
                 en = type(real[1]).__name__
